@@ -97,7 +97,10 @@ func exeWithCPUParallelVeirfy(signer etypes.Signer, txs gtypes.Txs,
 				switch status {
 				case appTxStatusChecked:
 					//err = whenExec(i, pcur.rawbytes, pcur.tx)
-					pcur.err = exec(i, pcur.rawbytes, pcur.tx)
+					// an empty transaction decodes to no tx at all: nothing to execute (as in execTx)
+					if pcur.tx != nil {
+						pcur.err = exec(i, pcur.rawbytes, pcur.tx)
+					}
 					break INNERFOR
 				case appTxStatusFailed:
 					//whenError(pcur.rawbytes, pcur.err)
